@@ -74,8 +74,15 @@ pub fn check_layout(module: &Module) -> Result<(), LayoutError> {
             None => return Err(LayoutError::UnknownLayout(loc)),
         };
 
-        layout_hlsl.size = layout_hlsl.size.next_multiple_of(layout_hlsl.align);
-        layout_metal.size = layout_metal.size.next_multiple_of(layout_metal.align);
+        // A size that does not fit the 32-bit offsets is treated the same as a type without a known layout
+        layout_hlsl.size = match layout_hlsl.size.checked_next_multiple_of(layout_hlsl.align) {
+            Some(size) => size,
+            None => return Err(LayoutError::UnknownLayout(loc)),
+        };
+        layout_metal.size = match layout_metal.size.checked_next_multiple_of(layout_metal.align) {
+            Some(size) => size,
+            None => return Err(LayoutError::UnknownLayout(loc)),
+        };
 
         if layout_hlsl.size != layout_metal.size {
             return Err(LayoutError::MismatchedLayout(
@@ -195,17 +202,20 @@ fn get_type_layout(module: &Module, ty: TypeId, mode: PackingMode) -> Option<Lay
             };
             for member in &def.members {
                 let member_layout = get_type_layout(module, member.type_id, mode)?;
-                layout.size = layout.size.next_multiple_of(member_layout.align);
+                layout.size = layout
+                    .size
+                    .checked_next_multiple_of(member_layout.align)?;
                 for (name, offset) in member_layout.fields {
-                    layout
-                        .fields
-                        .push((format!(".{}{}", member.name, name), layout.size + offset));
+                    layout.fields.push((
+                        format!(".{}{}", member.name, name),
+                        layout.size.checked_add(offset)?,
+                    ));
                 }
-                layout.size += member_layout.size;
+                layout.size = layout.size.checked_add(member_layout.size)?;
                 layout.align = layout.align.max(member_layout.align);
             }
             // The size of a struct includes the padding that makes arrays of it aligned
-            layout.size = layout.size.next_multiple_of(layout.align);
+            layout.size = layout.size.checked_next_multiple_of(layout.align)?;
             Some(layout)
         }
         TypeLayer::StructTemplate(_) => panic!("unexpected struct template"),
@@ -216,8 +226,9 @@ fn get_type_layout(module: &Module, ty: TypeId, mode: PackingMode) -> Option<Lay
         TypeLayer::Object(_) => None,
         TypeLayer::Array(ty, Some(count)) => {
             let mut layout = get_type_layout(module, ty, mode)?;
-            let count = u32::try_from(count).unwrap();
-            let stride = layout.size.next_multiple_of(layout.align);
+            // Sizes and offsets are 32-bit: a larger array has no layout we can describe
+            let count = u32::try_from(count).ok()?;
+            let stride = layout.size.checked_next_multiple_of(layout.align)?;
             for field in &mut layout.fields {
                 field.0.insert_str(0, "[0]");
             }
@@ -225,7 +236,7 @@ fn get_type_layout(module: &Module, ty: TypeId, mode: PackingMode) -> Option<Lay
                 // All other elements are consistent if the first element and the stride are consistent
                 layout.fields.push((String::from("[1]"), stride));
             }
-            layout.size = stride * count;
+            layout.size = stride.checked_mul(count)?;
             Some(layout)
         }
         TypeLayer::Array(_, None) => None,
